@@ -70,10 +70,18 @@ func slice(slice []interface{}, parts []sliceParam) ([]interface{}, error) {
 	if step > 0 {
 		for i := start; i < stop; i += step {
 			result = append(result, slice[i])
+			if step >= stop-i {
+				// The next index is past stop; stopping here also keeps
+				// i += step from overflowing for very large steps.
+				break
+			}
 		}
 	} else {
 		for i := start; i > stop; i += step {
 			result = append(result, slice[i])
+			if step <= stop-i {
+				break
+			}
 		}
 	}
 	return result, nil
